@@ -89,6 +89,8 @@ type world struct {
 	failed   bool
 	cancelOnFail context.CancelFunc
 	alwaysScope bool
+	ptable      []string        // parse results of headers outside Model/Challenge.v (for the model's parse_with)
+	ptableSeen  map[string]bool
 	noScope  bool           // a Bearer challenge without scope parameter was sent during this call
 	perReq   map[string]int // registry sends per X-Verif-Req (concurrent cases)
 
@@ -295,6 +297,10 @@ func (g *regState) challenge(w *world, repo, action string) string {
 	if w.r.Chance(1, 3) {
 		ps = append(ps, chParam{"error", "insufficient_scope"})
 	}
+	if w.r.Chance(1, 4) {
+		// free text: escapes and non-ASCII bytes inside a quoted string
+		ps = append(ps, chParam{"error_description", common.Pick(w.r, []string{"acc\u00e8s refus\u00e9", "say \"no\"", "back\\slash", "plain text", "tab\there"})})
+	}
 	if w.r.Chance(1, 2) {
 		common.Shuffle(w.r, ps)
 	}
@@ -307,10 +313,49 @@ func (g *regState) challenge(w *world, repo, action string) string {
 		if p.k != "realm" && tokenSafe(p.v) && w.r.Chance(1, 2) {
 			sb.WriteString(p.k + "=" + p.v)
 		} else {
-			sb.WriteString(p.k + common.Pick(w.r, []string{"=", "=", " = "}) + "\"" + p.v + "\"")
+			sb.WriteString(p.k + common.Pick(w.r, []string{"=", "=", " = "}) + quoteParam(p.v))
 		}
 	}
-	return sb.String()
+	hdr := sb.String()
+	w.checkChallenge(hdr, ps)
+	return hdr
+}
+
+// quoteParam renders a quoted-string: backslash and double quote are escaped.
+func quoteParam(v string) string {
+	return "\"" + strings.NewReplacer("\\", "\\\\", "\"", "\\\"").Replace(v) + "\""
+}
+
+// checkChallenge: the real parser must return exactly the parameters the header
+// was rendered from (independent ground truth); headers that Model/Challenge.v
+// does not judge (backslash or non-ASCII byte) are handed to the model with
+// what the real parser returned.
+func (w *world) checkChallenge(hdr string, ps []chParam) {
+	sch, got := auth.VerifParseChallenge(hdr)
+	want := map[string]string{}
+	for _, p := range ps {
+		want[p.k] = p.v
+	}
+	ok := sch == auth.SchemeBearer && len(got) == len(want)
+	for k, v := range want {
+		if got[k] != v {
+			ok = false
+		}
+	}
+	if !ok {
+		w.violate("challenge-params", "parseChallenge(%q) = %v %q, the registry built the header from %q", hdr, sch, got, want)
+	}
+	special := false
+	for i := 0; i < len(hdr); i++ {
+		if hdr[i] == '\\' || hdr[i] >= 0x80 {
+			special = true
+		}
+	}
+	if special && !w.ptableSeen[hdr] {
+		w.ptableSeen[hdr] = true
+		w.ptable = append(w.ptable, fmt.Sprintf("%s bearer %s %s %s", common.Hex(hdr), common.Hex(got["realm"]), common.Hex(got["service"]), common.Hex(got["scope"])))
+		run.Count("history/challenge-outside-model-parser")
+	}
 }
 
 // RoundTrip is the whole network.
@@ -559,7 +604,7 @@ func (w *world) tokenEndpoint(req *http.Request, body []byte, dump string) (*htt
 
 func newWorld(r *common.Rand) *world {
 	w := &world{r: r, byHost: map[string]*regState{}, authHost: map[string]bool{}, tokens: map[string]*issued{},
-		fetchCount: map[string]int{}, tokenUp: true, failAt: -1}
+		fetchCount: map[string]int{}, tokenUp: true, failAt: -1, ptableSeen: map[string]bool{}}
 	hosts := []string{"reg0.test", "reg1.test:5000", "reg0.test:443", "registry-3.example.io"}
 	n := 2 + r.Intn(3)
 	auths := []string{"auth0.test", "auth1.test:8443"}
@@ -567,7 +612,7 @@ func newWorld(r *common.Rand) *world {
 		w.authHost[a] = true
 	}
 	for i := 0; i < n; i++ {
-		g := &regState{idx: i, host: hosts[i], service: fmt.Sprintf("svc-h%d-", i)}
+		g := &regState{idx: i, host: hosts[i], service: fmt.Sprintf("svc-h%d-", i) + common.Pick(r, []string{"", "", "", "\u00e9", "\"q\"", "a\\b"})}
 		tag := fmt.Sprintf("-h%d-%x", i, r.U64()&0xffffff)
 		g.cred = auth.Credential{Username: "user" + tag, Password: "pw" + tag}
 		switch r.Intn(6) {
@@ -750,7 +795,8 @@ func historyCase(hseed uint64) {
 		fmt.Fprintf(&line, " %d %s", g.idx, credFlags(g.clientCred))
 	}
 	nreq := 4 + r.Intn(run.Scale(9, 13))
-	fmt.Fprintf(&line, " %d", nreq)
+	head := line.String()
+	line.Reset()
 	nontrivial := false
 	for q := 0; q < nreq; q++ {
 		// scheme / realm changes mid-history
@@ -848,9 +894,14 @@ func historyCase(hseed uint64) {
 			run.OracleFail(id, "valid-credentials-rejected", fmt.Sprintf("%s: the client holds valid credentials but Do ended with %s (%v): %v", where, result, err, w.events), rep)
 		}
 	}
-	run.Case(id, line.String(), impl.String())
+	full := fmt.Sprintf("%s %d", head, len(w.ptable))
+	for _, e := range w.ptable {
+		full += " " + e
+	}
+	full += fmt.Sprintf(" %d", nreq) + line.String()
+	run.Case(id, full, impl.String())
 	if nontrivial {
-		run.Nontrivial(line.String())
+		run.Nontrivial(full)
 	}
 	if len(run.Samples) < 2 {
 		run.Sample(map[string]any{"history_seed": hseed, "cache": flavour, "wire": impl.String()})
